@@ -2,7 +2,9 @@ package fsm
 
 import (
 	"fmt"
+	"math/rand/v2"
 	"net/netip"
+	"sync"
 	"testing"
 	"time"
 
@@ -62,8 +64,105 @@ func c14MappedID(t *testing.T, id uint32, dir string, seed uint64) rt.Result {
 	return res
 }
 
+// c14Concurrent: OPENs of several peers are built at the same instant, while the
+// plugin goroutines of an Established peer are inside WriteUpdate; each OPEN must
+// still be that peer's own, whole and well-formed (the wire monitor of every
+// connection judges the octets).
+func c14Concurrent(t *testing.T, seed uint64) rt.Result {
+	const rounds = 24
+	nOpen := 0
+	out := hz.Run(t, hz.Opts{Seed: seed, HookMode: hz.HookOff}, func(w *hz.World) {
+		r := rand.New(rand.NewPCG(seed, 14))
+		kicks := make([]chan struct{}, rounds)
+		for i := range kicks {
+			kicks[i] = make(chan struct{})
+		}
+		var kmu sync.Mutex
+		next := 0
+		kick := func() {
+			kmu.Lock()
+			if next < rounds {
+				close(kicks[next])
+				next++
+			}
+			kmu.Unlock()
+		}
+		defer func() {
+			for k := 0; k < rounds; k++ {
+				kick()
+			}
+		}()
+		busy := hz.StdPeer("10.0.2.2")
+		busy.Passive = true
+		busy.Cfg.OnEst = func(s *hz.Session) {
+			for g := 0; g < 3; g++ {
+				gr := rand.New(rand.NewPCG(seed, uint64(140+g)))
+				go func() {
+					for k := 0; k < rounds; k++ {
+						<-kicks[k]
+						for i := 0; i < 150; i++ {
+							if s.Writer.WriteUpdate(make([]byte, 4+gr.IntN(40))) != nil {
+								return
+							}
+						}
+					}
+				}()
+			}
+		}
+		if bring(w, busy, "in", stEstablished, 0) == nil {
+			return
+		}
+		type pr struct {
+			ps  hz.PeerSpec
+			exp ref.ExpectedOpen
+		}
+		var peers []pr
+		for k := 0; k < 4; k++ {
+			ps := hz.StdPeer(fmt.Sprintf("10.0.1.%d", k+1))
+			ps.Passive = true
+			ps.LocalAS = []uint32{65001, 4200000000, 65535, 23456}[k]
+			ps.Hold = []int{90, 0, 3, 65535}[k]
+			ps.Cfg.NoNonce = true
+			caps := gen.PluginCaps(r)
+			for len(caps) > 0 && !ref.ExpectOpen(ps.LocalAS, uint16(ps.Hold), localIDu, caps).Representable {
+				caps = caps[:len(caps)-1]
+			}
+			for _, cp := range caps {
+				ps.Cfg.Caps = append(ps.Cfg.Caps, corebgp.Capability{Code: cp.Code, Value: cp.Value})
+			}
+			w.MustAddPeer(ps)
+			peers = append(peers, pr{ps, ref.ExpectOpen(ps.LocalAS, uint16(ps.Hold), localIDu, caps)})
+		}
+		for round := 0; round < rounds; round++ {
+			kick()
+			var rcs []*hz.RConn
+			for _, p := range peers {
+				rcs = append(rcs, w.Connect(p.ps.Addr))
+			}
+			w.Settle()
+			for k, rc := range rcs {
+				ms := rc.Msgs()
+				if len(ms) != 1 || ms[0].Type != wire.TypeOpen {
+					w.Violate("round %d: connection of %s (OPENs of four peers built at one instant, three plugin goroutines writing) did not receive exactly an OPEN: [%s]", round, peers[k].ps.Addr, typesOf(ms))
+				} else if why := peers[k].exp.CheckOpen(ms[0].Open); why != "" {
+					w.Violate("round %d: OPEN sent to %s does not reflect that peer's configuration: %s", round, peers[k].ps.Addr, why)
+				} else {
+					nOpen++
+				}
+				rc.Close()
+			}
+			w.Settle()
+		}
+	})
+	return worldResult(out, nOpen > 0, "|concurrent", map[string]int{"concurrent_opens": nOpen})
+}
+
 func TestC14(t *testing.T) {
 	c := rt.Get()
+	for i := 0; i < c.N(60, 2000); i++ {
+		seed := uint64(i)*7046029254386353131 + c.Seed
+		runCase(t, "concurrent", i, map[string]any{"peers": 4, "writers": 3, "rounds": 24}, func(t *testing.T) rt.Result { return c14Concurrent(t, seed) })
+	}
 	for i := 0; i < c.N(8, 64); i++ {
 		id := []uint32{0xc0000201, 0x0a000001, 0x01020304, 0xfffffffe}[i%4] + uint32(i/4)
 		dir := allDirs[i%2]
@@ -109,6 +208,7 @@ func TestC14(t *testing.T) {
 				ps.Passive = p.Dir == "in"
 				ps.IdleHold = time.Second
 				ps.Cfg.NoNonce = true
+				ps.Cfg.SharedCaps = i%2 == 0 // the plugin hands out the slice it keeps
 				for _, cp := range caps {
 					ps.Cfg.Caps = append(ps.Cfg.Caps, corebgp.Capability{Code: cp.Code, Value: cp.Value})
 				}
